@@ -28,7 +28,15 @@ SRCS = ["network/network_connect.c", "network/network_read.c",
         "datastruct/timerqueue.c"]
 WRAP = "-Wl," + ",".join("--wrap=" + f for f in
                          ["socket", "connect", "getsockopt", "setsockopt", "poll", "recv", "send", "close",
-                          "malloc", "calloc", "realloc", "free"])
+                          "malloc", "calloc", "realloc", "free",
+                          # used by the black-box build only (in the white-box build netbuf_read_wait and its callers are in the
+                          # harness's own translation unit: there is no undefined reference for the linker to redirect)
+                          "netbuf_read_wait"])
+# black-box fallback (harness/h_http.c -DHC_BLACKBOX): the files the harness #includes are compiled separately; http.c's waits
+# (cancellation points) are observed through --wrap=netbuf_read_wait.  Neither build resets library state between cases (the
+# warm-up request fills pools and lazily allocated tables once; live blocks are counted as differences), so no bb_fresh; no op
+# needs white-box access (only the L2 part did), so no bb_skip_ops.
+BB = dict(bb_ok=True, bb_srcs=["netbuf/netbuf_read.c", "netbuf/netbuf_write.c", "http/http.c"])
 
 hx = vlib.hx
 TOKEN = b"abcdefghijklmnopqrstuvwxyzABCDEFGHIJKLMNOPQRSTUVWXYZ0123456789-_"
@@ -847,7 +855,7 @@ def comp_wf(ctx, scale=1.0):
              "into the op lines, cut into segments (whole / bytewise / random sizes with EAGAINs / sizes around the reader's "
              "4096-byte buffer), with body limit in {|body|, |body|+1, above, SIZE_MAX} and a random request (method incl. HEAD, 0..29 "
              "headers, optional body, send() accepting 1..all bytes); non-trivial = at least 20 stream bytes; distinct by op-list hash",
-        classify=classify, ldflags=[WRAP])
+        classify=classify, ldflags=[WRAP], **BB)
 
 
 def comp_mal(ctx):
@@ -860,7 +868,7 @@ def comp_mal(ctx):
              "responses), refused connections, failing send(), early answers, http_request_cancel right after the k-th wait / after "
              "the j-th recv() (every point of small responses, generated points elsewhere); L2 = wait lengths + at every wait the "
              "live blocks of http.c's own, all live library blocks and the outstanding registrations",
-        classify=classify, ldflags=[WRAP])
+        classify=classify, ldflags=[WRAP], **BB)
 
 
 ASSUMPTIONS = [
